@@ -63,9 +63,12 @@ def _one(job):
     return entry["name"], "DISCHARGED", "", []
 
 
-def run_corpus(prop, root="/repo/verde", jobs=16, names=None):
+def run_corpus(prop, root="/repo/verde", jobs=16, names=None, seed=0):
     """returns list of dict(name, expect, got, ok, detail)"""
     entries = [e for e in load_corpus(prop) if not names or e["name"] in names]
+    if seed:
+        import random
+        random.Random(seed).shuffle(entries)      # VERIF_SEED only permutes the order of the variants; verdicts do not depend on it
     if not entries:
         return []
     work = [(prop, root, e) for e in entries]
